@@ -52,3 +52,62 @@ Lemma read_header_line_fields : forall line is_curves is_param,
                  (strip (gv (group_opt 2%nat (caps y)))) (strip (gv (group_opt 3%nat (caps y)))))
   end.
 Proof. reflexivity. Qed.
+
+(* ---------- the whole of read_header_line (pattern=None, the only way lasio calls it) ------------------ *)
+Require Import FuncsPinConfigure.
+
+Lemma groupdict_same : forall y,
+  pyo_groupdict y = groupdict (group_opt 0%nat (caps y)) (group_opt 1%nat (caps y)) (group_opt 2%nat (caps y)) (group_opt 3%nat (caps y)).
+Proof.
+  intros y. unfold pyo_groupdict, groupdict, opt_pair. cbn [flat_map fst snd].
+  destruct (group_opt 0%nat (caps y)); destruct (group_opt 1%nat (caps y)); destruct (group_opt 2%nat (caps y));
+    destruct (group_opt 3%nat (caps y)); reflexivity.
+Qed.
+
+(* the loop `for pattern in patterns: m = re.match(pattern, line); if m is not None: break` *)
+Lemma first_match_loop : forall (ps : list (list frag)) line,
+  match fold_left (fun (acc : option st + option st) (p : list frag) =>
+                     match acc with
+                     | inl t => inl t
+                     | inr _ => if negb (pyo_is_none (re_match (pat_re p) line)) then inl (re_match (pat_re p) line)
+                                else inr (re_match (pat_re p) line)
+                     end) ps (inr None) with
+  | inl t => t
+  | inr t => t
+  end = first_match (pats_re ps) line.
+Proof.
+  intros ps line. unfold pats_re.
+  assert (Hinl : forall (l : list (list frag)) (t : option st),
+            fold_left (fun (acc : option st + option st) (p : list frag) =>
+                     match acc with
+                     | inl t => inl t
+                     | inr _ => if negb (pyo_is_none (re_match (pat_re p) line)) then inl (re_match (pat_re p) line)
+                                else inr (re_match (pat_re p) line)
+                     end) l (inl t) = inl t)
+    by (induction l as [|p l IH]; intros t; [reflexivity|exact (IH t)]).
+  induction ps as [|p ps IH]; [reflexivity|]. cbn [fold_left map first_match].
+  destruct (re_match (pat_re p) line) as [y|] eqn:E; cbn [pyo_is_none negb].
+  - rewrite Hinl. reflexivity.
+  - exact IH.
+Qed.
+
+Theorem read_header_line_pin : forall line section_name,
+  py_read_header_line line None section_name
+  = option_map hline_dict (read_header_line line (str_eqb section_name name_Curves) (str_eqb section_name name_Parameter)).
+Proof.
+  intros line sn. rewrite read_header_line_fields, configure_patterns_pin.
+  change (py_read_header_line line None sn) with
+    (obind (option_map pyo_groupdict
+              match fold_left (fun (acc : option st + option st) (p : list frag) =>
+                     match acc with
+                     | inl t => inl t
+                     | inr _ => if negb (pyo_is_none (re_match (pat_re p) line)) then inl (re_match (pat_re p) line)
+                                else inr (re_match (pat_re p) line)
+                     end) (py_configure_metadata_patterns line sn) (inr None) with
+              | inl t => t
+              | inr t => t
+              end) py_header_line_fields).
+  rewrite first_match_loop.
+  destruct (first_match (pats_re (py_configure_metadata_patterns line sn)) line) as [y|]; [|reflexivity].
+  cbn [option_map obind]. rewrite groupdict_same. apply header_fields_pin.
+Qed.
